@@ -64,7 +64,10 @@ def split(formula):
 def mutants(f, rng, k):
     toks = split(f)
     out = set()
-    pool = ['1', 'A1', '"x"', '+', '*', '&', '=', '<', ')', '(', ',', ';', '%', 'SUM', 'B2', '2.5', 'TRUE', '-', ':', '!', '$', '.', '#']
+    pool = ['1', 'A1', '"x"', '+', '*', '&', '=', '<', ')', '(', ',', ';', '%', 'SUM', 'B2', '2.5', 'TRUE', '-', ':', '!', '$', '.', '#',
+            # pieces real workbook files contain around formulas (future-function prefixes, implicit intersection, structured references,
+            # array constants, error literals): none of them is in the grammar, a lexer that skips one accepts a malformed text
+            '_xlfn.', '_xlws.', '_xlpm.', '@', '[#This Row]', '{1,2}', '#REF!', '#N/A', "''", '_', 'xlfn', '\\', '^', '~', '|', '\u00a0', '\u200b']
     for _ in range(k):
         t = list(toks)
         m = rng.randrange(13)
